@@ -15,6 +15,48 @@ TRUSTED = ["argparse, the OS pipe, codecs file writing", "in-process reference s
 ASSUMES = ["N >= 1"]
 
 
+def long_list(ctx, code, env, sc, dist):
+    """A wordlist of several thousand words (more than any plausible output buffer): the file written with -o is byte for
+    byte what goes to standard output, unbounded and with --size just above 4096 / 8192."""
+    vio = []
+    n = ctx.scale(9000, 20000)
+    vals = ["%05d" % i for i in range(n)]
+    groups, lines, i = [], [], 0
+    while i < n:
+        k = ctx.rng.choice([1, 1, 2, 3, 50])
+        groups.append(vals[i:i + k])
+        i += k
+    for gi, gvals in enumerate(groups):
+        for v in gvals:
+            lines.append((v, (len(groups) - gi) * 1.0))
+    tot = sum(p for _, p in lines)
+    rs = {"name": "PLONG", "encoding": "utf-8", "uuid": "00000000-0000-0000-0000-000000000017",
+          "files": {"D5": [(v, p / tot) for v, p in lines], "D1": [("7", 1.0)]}, "grammar": [("D1", 1.0)], "prince": [("D5", 1.0)],
+          "omen": None, "omen_prob": [("1", 0.1)]}
+    rulesets.write_ruleset(rs, os.path.join(code, "Rules", "PLONG"))
+    base = [common.PY, "prince_ling.py", "-r", "PLONG"]
+    rc, ref, err = common.run_cli(base, code, env, 300)
+    ref_lines = ref.split(b"\n")[:-1]
+    dist["long_list_words"] = len(ref_lines)
+    if sorted(ref_lines) != sorted(v.encode() for v in vals):
+        vio.append({"sig": "C17:content", "what": "the unbounded list of a %d-word Prince grammar has %d lines" % (n, len(ref_lines)),
+                    "replay": {"ruleset": "long-list", "n": None, "file": False}})
+    for size in (None, 4097, 8193, 4096):
+        fn = os.path.join(code, "out_long_%s.txt" % size)
+        rc, out, err = common.run_cli(base + ["-o", fn] + (["-s", str(size)] if size else []), code, env, 300)
+        data = open(fn, "rb").read() if os.path.exists(fn) else b"<no file>"
+        exp = b"".join(l + b"\n" for l in (ref_lines[:size] if size else ref_lines))
+        dist["long_list_file_runs"] = dist.get("long_list_file_runs", 0) + 1
+        if data != exp or out.strip():
+            got_lines = data.split(b"\n")
+            k = next((j for j, (a, b) in enumerate(zip(got_lines, exp.split(b"\n"))) if a != b), min(len(got_lines), len(exp.split(b"\n"))))
+            vio.append({"sig": "C17:content:file", "what": "-o file of a long list (--size %s) differs from standard output: %d lines vs %d, first "
+                        "difference at line %d (%r)" % (size, len(got_lines) - 1, len(exp.split(b"\n")) - 1, k, got_lines[k][:30] if k < len(got_lines) else None),
+                        "replay": {"ruleset": "long-list", "n": size, "file": True}})
+            break
+    return vio
+
+
 def run(ctx):
     nrs = ctx.scale(24, 120)
     sc = common.scratch()
@@ -162,6 +204,7 @@ def run(ctx):
             cases.setdefault(name, []).append((n, len(lines), lines == ref[:len(lines)]))
         if len(samples) < 3 and n:
             samples.append({"ruleset": name, "size": n, "all_lower": lower, "to_file": tofile, "got": len(lines), "first": lines[:4]})
+    vio += long_list(ctx, code, env, sc, dist)
     # unbounded list: probabilities of the groups non-increasing (direct oracle on the reference used above)
     for name, (rs, lower, per_item, ref, probs) in refs.items():
         if any(probs[i] > probs[i - 1] for i in range(1, len(probs))):
@@ -188,7 +231,7 @@ def run(ctx):
     rule = ("generated rulesets (Prince/grammar.txt over all their labels, ties), prince_ling.py as a subprocess with and without -o (every second -o file exists already and is longer) and "
             "--all_lower, unbounded and with --size N for N = 1, total, total+3, b-1/b/b+1 around group boundaries and strictly inside "
             "groups of equally probable words; output compared byte-wise with the in-process reference; non-trivial = N strictly inside a "
-            "group; distinct by (ruleset, N)")
+            "group; distinct by (ruleset, N); plus one list of ~9000 words to stdout and to -o files (unbounded, --size 4096/4097/8193)")
     # second tie to the source (translator): name the broken equality if the build lost ExpandGenProofs
     import expand_tie
     corr.append(expand_tie.obligation())
@@ -204,6 +247,8 @@ def replay(ctx, data):
     code = common.copy_code_tree(common.scratch())
     env = common.subenv()
     env["PYTHONPATH"] = code
+    if rs == "long-list":
+        return long_list(ctx, code, env, common.scratch(), {})
     rulesets.write_ruleset(rs, os.path.join(code, "Rules", rs["name"]))
     base = [common.PY, "prince_ling.py", "-r", rs["name"]] + (["--all_lower"] if inp.get("all_lower") else [])
     _, full, _ = common.run_cli(base, code, env, 120)
